@@ -1,12 +1,13 @@
 package main
 
 import (
-	"os"
-	"os/exec"
 	"bytes"
 	"encoding/json"
 	"fmt"
+	"os"
+	"os/exec"
 	"strings"
+	"sync"
 
 	"github.com/z7zmey/php-parser/internal/verifhook"
 	"github.com/z7zmey/php-parser/pkg/ast"
@@ -86,6 +87,27 @@ func c11Pipeline(s *sched.Sched, j c11Job, rs c11Res) (out string) {
 	return c11PipelineBuf(s, j, rs, nil)
 }
 
+// c11Version: one *Version object per version string for the whole process — a caller hands the same configuration to all
+// its parses (the command-line tool does), so pipelines share the object although their inputs differ.
+var (
+	c11VerMu sync.Mutex
+	c11Vers  = map[string]*version.Version{}
+)
+
+func c11Version(s string) *version.Version {
+	if s == "nil" || s == "" {
+		return nil
+	}
+	c11VerMu.Lock()
+	defer c11VerMu.Unlock()
+	if v, ok := c11Vers[s]; ok {
+		return v
+	}
+	v := parseVer(s)
+	c11Vers[s] = v
+	return v
+}
+
 // c11PipelineBuf: the pipeline on the caller's buffer buf (nil: a private copy of the source).
 func c11PipelineBuf(s *sched.Sched, j c11Job, rs c11Res, buf []byte) (out string) {
 	defer func() {
@@ -101,7 +123,7 @@ func c11PipelineBuf(s *sched.Sched, j c11Job, rs c11Res, buf []byte) (out string
 	if buf != nil {
 		src = buf
 	}
-	root, err := parser.Parse(src, conf.Config{Version: parseVer(j.Ver), ErrorHandlerFunc: func(e *errors.Error) {
+	root, err := parser.Parse(src, conf.Config{Version: c11Version(j.Ver), ErrorHandlerFunc: func(e *errors.Error) {
 		errs = append(errs, e.String())
 		if s != nil {
 			s.Point()
